@@ -33,8 +33,9 @@ LEANCHECKER = True
 EDGE = 0        # Geom.e of the model: 0 = repaired box clamp (fixes/C06-02), 1 = pinned
 MODE = 'all'    # Mode of the model: 'all' = background subtracted from every loaded row (fixes/C06-01)
 TIE_EPS = 1e-7
-RULE = ("a case is (image, variant 2d/3d/4d/bscale, dtype, grid, box, requested stripes, mask, output path "
-        "in-process/files/compressed/CLI) run through the real BANE.filter_image; non-trivial = the image is not "
+RULE = ("a case is (image, dimensionality 2d/3d/4d with cube index, BSCALE absent/1/!=1, dtype, grid, box, requested stripes, mask, "
+        "output path: out_base None|given x compressed off|on, or the CLI — sampled as a product and enumerated in full by "
+        "option_matrix; both observation points are judged: the returned maps and the files read back) run through the real BANE.filter_image; non-trivial = the image is not "
         "constant, has >= 2 grid intervals in each direction, and at least one of: >= 2 realised stripes, a blank "
         "block, a DC offset >= 100 sigma, a gradient, bright sources, a tiny/huge unit (x 2**-50..2**40), a cube index > 0, "
         "BSCALE != 1; distinct by the full "
@@ -98,8 +99,8 @@ def _make_fits(job, img, path):
     for k, val in dict(CTYPE1='RA---SIN', CTYPE2='DEC--SIN', CRVAL1=30.0, CRVAL2=-20.0, CDELT1=-0.01,
                        CDELT2=0.01, CRPIX1=3.0, CRPIX2=5.0).items():
         hdu.header[k] = val
-    if bscale != 1.0:
-        hdu.header['BSCALE'] = bscale
+    if bscale != 1.0 or job.get('bscale_key'):
+        hdu.header['BSCALE'] = bscale       # 'present and 1', 'present and != 1', or absent
     hdu.writeto(path, overwrite=True, output_verify='silentfix')
 
 
@@ -138,7 +139,7 @@ def worker_main(jobfile):
             fn = os.path.join(d, f"in_{jid}.fits")
             _make_fits(job, img, fn)
             grab.got = {}
-            base = os.path.join(d, f"out_{jid}") if job['via'] != 'mem' else None
+            base = os.path.join(d, f"out_{jid}") if job['via'] in ('files', 'compressed', 'cli') else None
             gy, gx = job['grid']
             bY, bX = job['box']
             if job['via'] == 'cli':
@@ -156,7 +157,7 @@ def worker_main(jobfile):
             else:
                 out = BANE.filter_image(fn, base, step_size=(gy, gx), box_size=(bY, bX), cores=job['cores'],
                                         nslice=job['nslice'], mask=job['mask'],
-                                        compressed=(job['via'] == 'compressed'),
+                                        compressed=(job['via'] in ('compressed', 'memcomp')),
                                         cube_index=job.get('cube_index', 0))
                 if out is None:
                     res['status'] = 'returned-none'
@@ -167,6 +168,13 @@ def worker_main(jobfile):
                 for w in ('bkg', 'rms'):
                     with fits.open(f"{base}_{w}.fits") as h:
                         np.save(os.path.join(d, f"file_{w}_{jid}.npy"), np.array(h[0].data, dtype=np.float64))
+                        if job['via'] == 'compressed':
+                            from AegeanTools import fits_tools
+                            try:
+                                ex = fits_tools.expand(f"{base}_{w}.fits")
+                                np.save(os.path.join(d, f"exp_{w}_{jid}.npy"), np.array(ex[0].data, dtype=np.float64))
+                            except Exception as e:  # noqa
+                                res['expand_error'] = f"{type(e).__name__}: {e}"[:300]
                         if w == 'bkg':
                             res['file_hdr'] = {k: h[0].header[k] for k in ('BN_CFAC', 'BN_NPX1', 'BN_NPX2', 'BN_RPX1',
                                                                           'BN_RPX2', 'BSCALE') if k in h[0].header}
@@ -200,7 +208,7 @@ def predict_layout(R, nslice, step1):
 
 
 def mkjob(ctx, img, grid, box, nslice=1, mask=True, variant='2d', dtype='f4', via='mem', cube_index=0, n3=3,
-          bscale=1.0, tag=''):
+          bscale=1.0, tag='', bscale_key=False):
     """job dict for the real code; cores chosen so that realised stripes <= cores"""
     _counter[0] += 1
     jid = _counter[0]
@@ -213,7 +221,7 @@ def mkjob(ctx, img, grid, box, nslice=1, mask=True, variant='2d', dtype='f4', vi
     np.save(os.path.join(ctx.tmpdir(), name), img)
     return dict(id=jid, img=name, grid=list(grid), box=list(box), nslice=nslice, cores=cores, mask=bool(mask),
                 variant=variant, dtype=dtype, via=via, cube_index=cube_index, n3=n3, bscale=bscale, tag=tag,
-                predicted=lay, _img=img)
+                bscale_key=bool(bscale_key), predicted=lay, _img=img)
 
 
 class Hang(Exception):
@@ -316,7 +324,7 @@ def run_jobs(ctx, jobs):
                 continue
             r = json.load(open(rf))
             os.unlink(rf)
-            for w in ('bkg', 'rms', 'file_bkg', 'file_rms'):
+            for w in ('bkg', 'rms', 'file_bkg', 'file_rms', 'exp_bkg', 'exp_rms'):
                 f = os.path.join(d, f"{w}_{j['id']}.npy")
                 if os.path.exists(f):
                     r[w] = np.load(f)
@@ -478,7 +486,8 @@ def case_of(job, extra=None):
     img = job['_img']
     c = dict(shape=list(img.shape), grid=job['grid'], box=job['box'], nslice=job['nslice'], cores=job['cores'],
              mask=job['mask'], variant=job['variant'], dtype=job['dtype'], via=job['via'],
-             cube_index=job['cube_index'], n3=job['n3'], bscale=job['bscale'], tag=job['tag'],
+             cube_index=job['cube_index'], n3=job['n3'], bscale=job['bscale'], bscale_key=job.get('bscale_key', False),
+             tag=job['tag'],
              image=[common.f2h(v) if math.isfinite(v) else ('n' if v != v else ('pinf' if v > 0 else 'ninf'))
                     for v in img.ravel().tolist()])
     if extra:
@@ -495,7 +504,7 @@ def img_from_case(c):
 def job_from_case(ctx, c, img=None):
     return mkjob(ctx, img_from_case(c) if img is None else img, c['grid'], c['box'], nslice=c['nslice'],
                  mask=c['mask'], variant=c['variant'], dtype=c['dtype'], via=c['via'], cube_index=c['cube_index'],
-                 n3=c.get('n3', 3), bscale=c.get('bscale', 1.0), tag=c.get('tag', ''))
+                 n3=c.get('n3', 3), bscale=c.get('bscale', 1.0), tag=c.get('tag', ''), bscale_key=c.get('bscale_key', False))
 
 
 # ---------- Spec checks on one run ----------------------------------------------------------------
@@ -618,7 +627,41 @@ def spec_single(ctx, job, res):
                 if not okc:
                     ctx.fail('spec', case_of(job), f"{w} file differs from the returned map: {det}", sig('file', job))
                     ok = False
+    # the second observation point on its own: the *_bkg.fits / *_rms.fits files (decimated nodes when compressed,
+    # and the maps expanded back by fits_tools.expand) must obey the range / constant clauses themselves
+    if fin.any():
+        lo, hi = float(img[fin].min()), float(img[fin].max())
+        for where, kb, kr in (('file', 'file_bkg', 'file_rms'), ('expanded file', 'exp_bkg', 'exp_rms')):
+            if kb in res and kr in res:
+                ctx.count('observed-' + where.replace(' ', '-'))
+                if where == 'expanded file' and (res[kb].shape != (R, C) or res[kr].shape != (R, C)):
+                    ctx.fail('spec', case_of(job), f"expanded maps have shape {res[kb].shape}/{res[kr].shape}, image {(R, C)}",
+                             sig('expanded-shape', job))
+                    ok = False
+                    continue
+                ok = range_const(ctx, job, lo, hi, scale, res[kb], res[kr], where) and ok
+    if res.get('expand_error'):
+        ctx.fail('spec', case_of(job), f"the compressed output cannot be expanded: {res['expand_error']}", sig('expand-raises', job))
+        ok = False
     return ok
+
+
+def range_const(ctx, job, lo, hi, scale, bmap, rmap, where):
+    """background within [lo, hi], 0 <= noise <= hi - lo, and for a constant image background = constant, noise = 0,
+    judged on the maps observed at `where` (image units)"""
+    slack = 2e-6 * max(abs(lo), abs(hi)) + 1e-9 * scale
+    fb = bmap[np.isfinite(bmap)]
+    fr = rmap[np.isfinite(rmap)]
+    good = True
+    if fb.size and (fb.min() < lo - slack or fb.max() > hi + slack):
+        ctx.fail('spec', case_of(job), f"{where}: background [{fb.min()}, {fb.max()}] leaves the range of the finite input pixels "
+                 f"[{lo}, {hi}]" + (" (constant image)" if lo == hi else ""), sig('bkg-range', job, where=where))
+        good = False
+    if fr.size and (fr.min() < 0 or fr.max() > (hi - lo) + slack):
+        ctx.fail('spec', case_of(job), f"{where}: noise reaches {fr.max()} but the finite input pixels span only {hi - lo}"
+                 + (" (constant image: must be 0)" if lo == hi else ""), sig('rms-range', job, where=where))
+        good = False
+    return good
 
 
 def nontrivial_key(job, feat):
@@ -690,6 +733,30 @@ def correspond(ctx, jobs, results, feats):
 
 # ---------- metamorphic relations on the real code --------------------------------------------------
 
+def judge_relation(ctx, kind, par, img1, img2, b1, r1, b2, rr2):
+    """does (b2, rr2), observed for the transformed image, relate to (b1, r1) as the property demands?"""
+    exact = False
+    if kind == 'shift':
+        scale = max(scale_of(img1), scale_of(img2))
+        wb, wr = b1 + par, r1
+        law = f"adding {par} must add {par} to the background and leave the noise unchanged"
+        okb, ib, db = f32_close(b2, wb, scale)
+        okr, ir, dr = f32_close(rr2, wr, scale)
+    else:
+        scale = scale_of(img2)          # judged in the units of the transformed image
+        wb, wr = b1 * par, r1 * abs(par)
+        law = f"multiplying by {par} must scale the background by {par} and the noise by {abs(par)}"
+        exact = is_pow2(par)
+        if exact:
+            ctx.count('metamorphic-scale-pow2-exact')
+            okb, ib, db = f32_close(b2, wb, scale, rel=1.2e-7, absrel=0.0)
+            okr, ir, dr = f32_close(rr2, wr, scale, rel=1.2e-7, absrel=0.0)
+        else:
+            okb, ib, db = f32_close(b2, wb, scale)
+            okr, ir, dr = f32_close(rr2, wr, scale)
+    return (okb and okr), law, (('bkg: ' + db) if not okb else ('noise: ' + dr) if not okr else ''), exact
+
+
 SHIFTS = [1000.0, -250.5, 16384.0, 64.0]
 BIG_SHIFTS = [2.0 ** 20, -2.0 ** 24, 3.0 * 2.0 ** 18]       # used with float64 files only
 SCALES = [2.0, -1.0, -0.75, 3.0, 0.5, -4.0]
@@ -731,8 +798,8 @@ def metamorphic(ctx, base_jobs, results):
             todo.append(('scale', 2.0 ** -e, img * 2.0 ** -e))
         for kind, par, im2 in todo:
             j2 = mkjob(ctx, im2, job['grid'], job['box'], nslice=job['nslice'], mask=job['mask'], variant=job['variant'],
-                       dtype=job['dtype'], via='mem', cube_index=job['cube_index'], n3=job['n3'], bscale=job['bscale'],
-                       tag=f"{kind}:{par}")
+                       dtype=job['dtype'], via=(job['via'] if job['via'] != 'cli' else 'mem'), cube_index=job['cube_index'],
+                       n3=job['n3'], bscale=job['bscale'], bscale_key=job.get('bscale_key', False), tag=f"{kind}:{par}")
             derived.append((job, kind, par, j2))
     res2 = run_jobs(ctx, [d[3] for d in derived])
     bad = []
@@ -745,30 +812,18 @@ def metamorphic(ctx, base_jobs, results):
         if not r2 or r2.get('status') != 'ok' or 'bkg' not in r2:
             ctx.fail('spec', case_of(j2), f"BANE failed on the {kind} image: {r2 and r2.get('error')}", sig('no-maps', j2))
             continue
-        b1, r1 = maps_of(job, results[job['id']])
-        b2, rr2 = maps_of(j2, r2)
-        exact = False
-        if kind == 'shift':
-            scale = max(scale_of(job['_img']), scale_of(j2['_img']))
-            wb, wr = b1 + par, r1
-            law = f"adding {par} must add {par} to the background and leave the noise unchanged"
-            okb, ib, db = f32_close(b2, wb, scale)
-            okr, ir, dr = f32_close(rr2, wr, scale)
-        else:
-            scale = scale_of(j2['_img'])          # judged in the units of the transformed image
-            wb, wr = b1 * par, r1 * abs(par)
-            law = f"multiplying by {par} must scale the background by {par} and the noise by {abs(par)}"
-            exact = is_pow2(par)
-            if exact:
-                ctx.count('metamorphic-scale-pow2-exact')
-                okb, ib, db = f32_close(b2, wb, scale, rel=1.2e-7, absrel=0.0)
-                okr, ir, dr = f32_close(rr2, wr, scale, rel=1.2e-7, absrel=0.0)
-            else:
-                okb, ib, db = f32_close(b2, wb, scale)
-                okr, ir, dr = f32_close(rr2, wr, scale)
-        if okb and okr:
-            continue
-        bad.append((job, kind, par, j2, law, ('bkg: ' + db) if not okb else ('noise: ' + dr), exact))
+        spec_single(ctx, j2, r2)          # the transformed run is a run too: both observation points are judged
+        r1res = results[job['id']]
+        points = [('returned maps',) + maps_of(job, r1res) + maps_of(j2, r2)]
+        if 'file_bkg' in r1res and 'file_bkg' in r2 and 'bkg' in r1res:
+            points.append(('files', r1res['file_bkg'], r1res['file_rms'], r2['file_bkg'], r2['file_rms']))
+        for where, b1, r1, b2, rr2 in points:
+            if b1 is None or b2 is None or b1.shape != b2.shape:
+                continue
+            okk, law, det, exact = judge_relation(ctx, kind, par, job['_img'], j2['_img'], b1, r1, b2, rr2)
+            if not okk:
+                bad.append((job, kind, par, j2, f"[{where}] " + law, det, exact))
+                break
     if bad:
         # rounding ties in the clipping of the base image excuse a difference
         margins = [1.0] * len(bad)
@@ -943,6 +998,29 @@ def corpus_jobs(ctx):
     return jobs, feats
 
 
+def option_matrix(ctx):
+    """the full product {BSCALE absent, 1, != 1} x {compressed on/off} x {out_base given/None} x {2-D, 3-D/4-D with a cube
+    index}, every quick run, on a constant image and on a noisy image with an offset (alternating 1 and 2 stripes); every job is
+    judged at both observation points (returned maps; files read back, and expanded when compressed), against the model, and
+    by the shift / scale relations (meta_fraction = 1)"""
+    g = np.random.default_rng(60603 + ctx.seed)
+    jobs, feats = [], []
+    n = 0
+    for bmode in ('absent', 'one', 'other'):
+        for via in ('mem', 'memcomp', 'files', 'compressed'):      # (out_base None | given) x (compressed off | on)
+            for variant in ('2d', ('3d', '4d')[n % 2]):
+                n += 1
+                kw = dict(bscale_key=(bmode == 'one'), bscale=(ctx.rng.choice([4.0, 0.5, 2.0]) if bmode == 'other' else 1.0))
+                if variant != '2d':
+                    kw.update(n3=2, cube_index=1)
+                const = (n % 3 == 0)
+                img = np.full((14, 12), 6.0) if const else lattice_noise(g, 14, 12) + ctx.rng.choice([6.0, 100.0, -37.5])
+                jobs.append(mkjob(ctx, img, (4, 4), (8, 6), nslice=1 + n % 2, mask=True, variant=variant,
+                                  dtype=('f4', 'f8')[n % 2], via=via, tag=f"matrix {bmode}/{via}/{variant}", **kw))
+                feats.append(dict(const=True) if const else dict(offset=100.0))
+    return jobs, feats
+
+
 # ---------- top level ------------------------------------------------------------------------------------
 
 def evaluate(ctx, jobs, feats, with_model=True, meta_fraction=0.0):
@@ -956,6 +1034,8 @@ def evaluate(ctx, jobs, feats, with_model=True, meta_fraction=0.0):
         good = spec_single(ctx, job, res)
         ctx.count('variant-' + job['variant'])
         ctx.count('via-' + job['via'])
+        ctx.count('options:' + ('3d4d' if job['variant'] != '2d' else '2d') + '/bscale-' +
+                  ('other' if job['bscale'] != 1.0 else 'one' if job.get('bscale_key') else 'absent') + '/' + job['via'])
         ctx.count(f"stripes-{len(job.get('_stripes', job['predicted']))}")
         if feat.get('blanks'):
             ctx.count('with-blanks')
@@ -968,7 +1048,7 @@ def evaluate(ctx, jobs, feats, with_model=True, meta_fraction=0.0):
     if with_model:
         correspond(ctx, okjobs, results, feats)
     if meta_fraction > 0:
-        base = [j for j in okjobs if j['via'] == 'mem' and ctx.rng.random() < meta_fraction]
+        base = [j for j in okjobs if j['via'] != 'cli' and ctx.rng.random() < meta_fraction]
         metamorphic(ctx, base, results)
     return results
 
@@ -983,21 +1063,22 @@ def random_jobs(ctx, n, stripes_bias=False):
             if len(predict_layout(R, nslice, grid[1])) > 5:
                 nslice = 1
         img, feat = gen_image(ctx, R, C)
-        variant = rng.choice(['2d', '2d', '2d', '3d', '4d', 'bscale'])
-        via = rng.choice(['mem', 'mem', 'mem', 'files', 'compressed', 'cli'])
+        # independent choices (a product, not a list): dimensionality x BSCALE {absent, 1, != 1} x output path
+        variant = rng.choice(['2d', '2d', '3d', '4d'])
+        via = rng.choice(['mem', 'mem', 'memcomp', 'files', 'files', 'compressed', 'compressed', 'cli'])
         kw = {}
         if variant in ('3d', '4d'):
             kw['n3'] = rng.randint(1, 3)
             kw['cube_index'] = rng.randrange(kw['n3'])
-        if variant == 'bscale':
+        bmode = rng.choice(['absent', 'absent', 'one', 'other', 'other'])
+        if bmode == 'one':
+            kw['bscale_key'] = True
+        elif bmode == 'other':
             kw['bscale'] = rng.choice([2.0, 0.5, 4.0])
-            variant = '2d'
-        if via == 'compressed':
+        if via in ('compressed', 'memcomp'):
             g0 = min(grid)
             grid = (g0, g0)
             box = (max(box[0], 4, g0), max(box[1], 4, g0))
-            if variant != '2d':
-                variant, kw = '2d', {k: v for k, v in kw.items() if k == 'bscale'}
         if via == 'cli':
             grid = (grid[0], grid[0])
             box = (max(box[0], grid[0]), max(box[1], grid[0]))
@@ -1013,6 +1094,8 @@ def run(ctx):
     t0 = time.time()
     cj, cf = corpus_jobs(ctx)
     evaluate(ctx, cj, cf, with_model=True, meta_fraction=1.0)
+    mj, mf = option_matrix(ctx)
+    evaluate(ctx, mj, mf, with_model=True, meta_fraction=1.0)
     clip_cases(ctx, 150 if ctx.quick else 1500)
     n = 70 if ctx.quick else 600
     done = 0
@@ -1073,7 +1156,7 @@ def replay(ctx, rec):
         img = job['_img']
         par = c['par']
         im2 = img + par if c['relation'] == 'shift' else img * par
-        j2 = job_from_case(ctx, dict(c, via='mem'), img=im2)
+        j2 = job_from_case(ctx, dict(c, via=(c['via'] if c['via'] != 'cli' else 'mem')), img=im2)
         r2 = run_jobs(ctx, [j2]).get(j2['id'])
         r1 = results.get(job['id'])
         if r1 and r2 and r1.get('status') == 'ok' and r2.get('status') == 'ok':
